@@ -11,7 +11,7 @@ import Generated.Tables
 * statements in prefix notation
     `class <name> <bases|-> <decos|-> <doc|-> ( body )`      `def <name> <0|1> <decos|-> <doc|->`
     `asg <name> <lit> <ann|->`   `ann <name> <ann>`   `str <text>`   `blk <i|t|w|f> ( body ) ( tail )`
-    `main ( body )`   `old <name> <c|s>`   `oth`
+    `main ( body )`   `cmp <d|m|n> <eq|ne|is|isnot> <d|m|n> <0|1 negated> ( body )`   `old <name> <c|s>`   `oth`
 * decos  comma separated: `c s p` (bare) `C S P` (`builtins.` spelling) `set=<x>` `del=<x>` `ov` `o=<name>` `un`
 * lit    `i f c s b B N X` · `L(…)` `T(…)` `S(…)` `D(keys|values)`
 
@@ -137,6 +137,15 @@ def parseStmt : Nat → List String → Option (Stmt × List String)
       let (tail, rest''') ← parseStmts fuel rest'' []
       some (.block k body tail, rest''')
     | _ => none
+  | fuel+1, "cmp" :: l :: o :: r :: n :: "(" :: rest => do
+    let op (t : String) : Option Operand := match t with
+      | "d" => some .dunderName | "m" => some .mainStr | "n" => some .noneLit | _ => none
+    let l ← op l
+    let r ← op r
+    let o ← match o with
+      | "eq" => some CmpOp.eq | "ne" => some CmpOp.notEq | "is" => some CmpOp.is | "isnot" => some CmpOp.isNot | _ => none
+    let (body, rest') ← parseStmts fuel rest []
+    some (.ifCmp { left := l, op := o, right := r, negated := n == "1" } body, rest')
   | fuel+1, "main" :: "(" :: rest => do
     let (body, rest') ← parseStmts fuel rest []
     some (.ifMain body, rest')
